@@ -397,6 +397,25 @@ def c_int(flags, width, prec, verb, v):
     return body
 
 
+def sigdigits(v):
+    """number of significant decimal digits of the shortest representation that round-trips"""
+    r = repr(abs(v)).lower()
+    mant = r.split("e")[0].replace(".", "").lstrip("0").rstrip("0")
+    return len(mant)
+
+
+def k_hexfmt(req):
+    """hexfmt: 'Convert int to hex string, e.g. 255 to "0xff"'. Negative: two's complement or signed, not documented which."""
+    out = []
+    for val in req["vals"]:
+        v = int(val)
+        if v >= 0:
+            out.append(S("0x%x" % v))
+        else:
+            out.append(S("0x%x" % (v + 2 ** 64)) + "|" + S("-0x%x" % -v))
+    return out
+
+
 def k_fmt(req):
     f = req["fmt"]
     m = FMT_RE.match(f)
@@ -442,6 +461,8 @@ def k_fmt(req):
                     v = float(val)
                     if v != v or v in (float("inf"), float("-inf")):
                         w = "u"
+                    elif verb in "gG" and prec is None and sigdigits(v) > 6:
+                        w = "u"  # C: 6 significant digits; Go's fmt: shortest unique representation
                     else:
                         pf = "%" + flags + (str(width) if width is not None else "") + ("." + str(prec) if prec is not None else "") + verb
                         w = S(pf % v)
@@ -507,6 +528,28 @@ def k_jsonenc(req):
     if u is None:
         return None
     return [json.dumps(u, ensure_ascii=True).encode("utf-8").hex(), json.dumps(u, ensure_ascii=False).encode("utf-8").hex()]
+
+
+def k_format(req):
+    """format(): help text. '{}' consumes the next argument, '{N}' (N>=1) is positional, missing -> empty, '{0}' -> error."""
+    t = req["t"]
+    args = [bytes.fromhex(a).decode("utf-8") for a in req["args"]]
+    out, pos, i = [], 0, 0
+    for m in re.finditer(r"\{([0-9]*)\}", t):
+        out.append(t[i:m.start()])
+        i = m.end()
+        if m.group(1) == "":
+            idx = pos
+            pos += 1
+        else:
+            n = int(m.group(1))
+            if n < 1:
+                return "e"
+            idx = n - 1
+        if idx < len(args):
+            out.append(args[idx])
+    out.append(t[i:])
+    return S("".join(out))
 
 
 # ---------------------------------------------------------------- string-literal escapes
@@ -606,7 +649,7 @@ def k_capseq(req):
 
 
 KINDS = {"unary": k_unary, "substr": k_substr, "pad": k_pad, "index": k_index, "regex": k_regex, "ssub": k_ssub,
-         "split": k_split, "decode": k_decode, "fmt": k_fmt, "fmtstr": k_fmtstr, "json": k_json, "jsonenc": k_jsonenc,
+         "split": k_split, "decode": k_decode, "fmt": k_fmt, "hexfmt": k_hexfmt, "fmtstr": k_fmtstr, "format": k_format, "json": k_json, "jsonenc": k_jsonenc,
          "unb": k_unb, "capseq": k_capseq}
 
 
